@@ -10,6 +10,7 @@ import tempfile
 from concurrent.futures import ThreadPoolExecutor
 
 SEEDED = "/verif/seeded"
+TWINS = "/verif/twins"
 RULES = "/verif/sa/rules"
 
 
@@ -17,11 +18,11 @@ def built_props():
     return sorted(f[:-3].upper() for f in os.listdir(RULES) if f.startswith("c") and f.endswith(".py") and f[1:3].isdigit())
 
 
-def run_one(sid, props):
+def run_one(sid, props, base=SEEDED):
     d = tempfile.mkdtemp(prefix="vseed.", dir="/tmp")
     try:
         shutil.copytree("/repo/flow", os.path.join(d, "flow"))
-        ap = subprocess.run(["git", "apply", os.path.join(SEEDED, sid, "patch.diff")], cwd=d, capture_output=True, text=True)
+        ap = subprocess.run(["git", "apply", os.path.join(base, sid, "patch.diff")], cwd=d, capture_output=True, text=True)
         if ap.returncode != 0:
             return sid, {"error": "patch does not apply: " + ap.stderr[:200]}
         res = {}
@@ -38,7 +39,7 @@ def run_one(sid, props):
 def main():
     args = [a for a in sys.argv[1:] if not a.startswith("--")]
     allp = "--all-props" in sys.argv
-    ids = args or sorted(x for x in os.listdir(SEEDED) if os.path.isdir(os.path.join(SEEDED, x)))
+    ids = [a for a in args if os.path.isdir(os.path.join(SEEDED, a))] if args else sorted(x for x in os.listdir(SEEDED) if os.path.isdir(os.path.join(SEEDED, x)))
     props = built_props()
     jobs = []
     for sid in ids:
@@ -60,8 +61,26 @@ def main():
             status = {0: "MISSED", 1: "DETECTED", 2: "ANALYSIS-ERROR"}.get(r["rc"], str(r["rc"]))
             others = [p for p, v in res.items() if p != own and v["rc"] != 0]
             print(f"{sid}: {status} {r['first'][:200]}" + (f"  [also: {others}]" if others else ""))
-    with open(os.path.join(SEEDED, "MATRIX.json"), "w") as f:
-        json.dump(out, f, indent=1, sort_keys=True)
+    if not args:
+        with open(os.path.join(SEEDED, "MATRIX.json"), "w") as f:
+            json.dump(out, f, indent=1, sort_keys=True)
+    if "--twins" in sys.argv and os.path.isdir(TWINS):
+        tids = sorted(x for x in os.listdir(TWINS) if os.path.isdir(os.path.join(TWINS, x)) and (not args or x in args))
+        tout = {}
+        with ThreadPoolExecutor(max_workers=16) as ex:
+            for sid, res in ex.map(lambda t: run_one(t, props, TWINS), tids):
+                tout[sid] = res
+                if "error" in res:
+                    print(f"twin {sid}: {res['error']}")
+                    continue
+                alarms = {p: v for p, v in res.items() if v["rc"] != 0}
+                if alarms:
+                    for p, v in alarms.items():
+                        print(f"twin {sid}: {'FALSE-ALARM' if v['rc'] == 1 else 'ANALYSIS-ERROR'} by {p}: {v['first'][:200]}")
+                else:
+                    print(f"twin {sid}: silent ({len(res)} checks)")
+        with open(os.path.join(TWINS, "MATRIX.json"), "w") as f:
+            json.dump(tout, f, indent=1, sort_keys=True)
 
 
 if __name__ == "__main__":
